@@ -2102,7 +2102,9 @@ def suite_specs(ck):
                 reqs.append(req)
                 where.append((i, key))
     if reqs:
-        replies = _drive(ck, reqs)
+        replies = []
+        for lo in range(0, len(reqs), 900):                  # bounded stdin size per driver process
+            replies.extend(_drive(ck, reqs[lo:lo + 900]))
         per = collections.defaultdict(dict)
         for (i, key), rep in zip(where, replies):
             per[i][key] = rep
